@@ -75,6 +75,12 @@ add("C15", "model_checking",
     "Trusted: the order-book model in mc/checks/c15.py. Books are sorted best-first as Deribit delivers them and satisfy bids <= mark <= asks.",
     "DESIGN.md §5 C15")
 
+add("C16", "model_checking",
+    "exhaustive product of option kind x underlying at settlement x mark at settlement x expiry placement on the bar grid x holding history x co-market, each case one real Actuator.run; settlement bar, exactly-once removal, payoff and fee recomputed in exact Fractions",
+    "CALL / PUT; underlying at the settlement bar K-d, K-eps, K, K+eps (payoff below the fee), K+d; mark normal / tiny (12.5% cap binds) / instrument missing from the book; expiry before the first bar, on hour 0, on hour 2, between hours 2 and 3, after the data; holding 1, 3, or 5 bought and 2 sold before expiry; option market alone (hourly bars) or beside a minutely Uniswap market (241 bars) with trade attempts at every :00 and :30. Judged: exactly one ExpiredAction at the first open bar at or after expiry and none before, held on every earlier bar, cash delta at that bar = contracts x |S-K|/S - min(0.015% x contracts, 12.5% x option value) iff in the money and above the fee, DeliverAction fields, trades refused on closed bars and accepted on open ones.",
+    "Trusted: the payoff formula in mc/checks/c16.py. Open bar = on the hour and present in the option data.",
+    "DESIGN.md §5 C16")
+
 _PENDING = "check not built yet in this round (planned: bounded exhaustive exploration, see DESIGN.md §5); listed here until its check is registered"
 for _i in range(1, 21):
     _p = f"C{_i:02d}"
